@@ -195,6 +195,17 @@ func (v *Validator) VerifyNewConfirms(block *types.Block, sigList []types.SignDa
 	validConfirms := make([]types.SignData, 0, len(sigList))
 	var lastErr error = nil
 
+	// The deputies who signed this block already. A signature can be re-encoded to different bytes which recover the same signer, so the signers must be compared by node id
+	signedNodes := make(map[string]bool)
+	if minerNodeID, err := block.SignerNodeID(); err == nil {
+		signedNodes[string(minerNodeID)] = true
+	}
+	for _, oldSig := range block.Confirms {
+		if oldNodeID, err := oldSig.RecoverNodeID(hash); err == nil {
+			signedNodes[string(oldNodeID)] = true
+		}
+	}
+
 	for _, sig := range sigList {
 		// 判断validConfirms中是否已经存在sig了
 		if IsSigExist(validConfirms, sig) {
@@ -215,10 +226,11 @@ func (v *Validator) VerifyNewConfirms(block *types.Block, sigList []types.SignDa
 			lastErr = ErrInvalidConfirmSigner
 			continue
 		}
-		if block.IsConfirmExist(sig) {
+		if block.IsConfirmExist(sig) || signedNodes[string(nodeID)] {
 			log.Warn("Duplicate confirm", "hash", hash.Hex(), "signer", common.ToHex(nodeID[:4]))
 			continue
 		}
+		signedNodes[string(nodeID)] = true
 		validConfirms = append(validConfirms, sig)
 	}
 	return validConfirms, lastErr
